@@ -935,10 +935,14 @@ class Model:
             for eq in self.equations:
                 variable, value = extract_assignment(eq)
                 if variable is not None and (
-                    variable.name() in eliminated_values or is_cyclic(variable, value)
+                    variable.name() in eliminated_values
+                    or is_cyclic(variable, value)
+                    or len(self.alias_relation.aliases(variable.name())) > 1
                 ):
                     # Already eliminated through an earlier equation of this pass
-                    # (the variable is assigned twice), or a cyclic assignment
+                    # (the variable is assigned twice), a cyclic assignment, or a
+                    # variable that an earlier pass recorded aliases of: those
+                    # aliases are only defined as long as it stays in the model
                     variable = None
                 if variable is not None:
                     eliminated_values[variable.name()] = value
